@@ -367,6 +367,10 @@ def r182_columns(chk, m):
         got = set()
         for kind, s2, v in outs:
             if isinstance(v, list) and all(isinstance(c, list) for c in v):
+                if any(c is s2.env['items'] for c in v):
+                    # the caller stores the columns back into that very list (item[:] = columns): it would then contain itself
+                    got.add((kind, 'a column is the list of entries that was handed in'))
+                    continue
                 got.add((kind, len(v), tuple(x.label if isinstance(x, A.Obj) else 'TOP' for c in v for x in c)))
             else:
                 got.add((kind, 'TOP'))
@@ -513,23 +517,27 @@ def r183(chk, m):
             if chk.tier != 'thorough' and L == 5 and ks.count('@') == 0:
                 continue      # quick tier: five-token arguments only when they carry a sort key
             n += 1
-            toks = [A.Sym(lab, truthy=True, attrs={'catcode': 12, 'char': chars.get(k, 'x'), 'distinct': True}) for k, lab in seq]
-            hk = IdxHooks(m, cls, toks)
-            hk.should_inline = A.private_only
-            it = A.Interp(model=m, scope=fn, hooks=hk, max_iter=12, exc_edges=False, inline=2, precise_exc=True)
-            outs = it.run_function(fn, env={'tex': A.Sym('tex', truthy=True), 'self.ownerDocument.userdata': {}})
-            if it.imprecise or it.unknown_branches:
-                undet.append('%s: %s' % (''.join(chars.get(k, 'x') for k in ks), (it.imprecise + it.unknown_branches)[0]))
-                continue
-            got = set()
-            for kind, s, v in outs:
-                ent = s.env.get('__entry', ())
-                got.add(ent[0] if len(ent) == 1 and kind == 'return' else '%s with %d entries' % (kind, len(ent)))
-            want = repr((ref[0], ref[1], ref[2] if ref[2] is not None else []))
-            if got != {want}:
-                bad += 1
-                if len(first) < 4:
-                    first.append('%s -> %s, expected %s' % (''.join(chars.get(k, 'x') for k in ks), sorted(got), want))
+            for special_cc in ((12, 11) if (L <= 3 and '|' not in ks) else (12,)):
+                # the special characters are "other" and, for short arguments without a format part, also tried as letters
+                # (an index entry written in a macro body while @ is a letter)
+                toks = [A.Sym(lab, truthy=True, attrs={'catcode': 12 if k == 'c' else special_cc, 'char': chars.get(k, 'x'), 'distinct': True}) for k, lab in seq]
+                hk = IdxHooks(m, cls, toks)
+                hk.should_inline = A.private_only
+                it = A.Interp(model=m, scope=fn, hooks=hk, max_iter=12, exc_edges=False, inline=2, precise_exc=True)
+                outs = it.run_function(fn, env={'tex': A.Sym('tex', truthy=True), 'self.ownerDocument.userdata': {}})
+                shown = ''.join(chars.get(k, 'x') for k in ks) + (' (specials as letters)' if special_cc == 11 else '')
+                if it.imprecise or it.unknown_branches:
+                    undet.append('%s: %s' % (shown, (it.imprecise + it.unknown_branches)[0]))
+                    continue
+                got = set()
+                for kind, s, v in outs:
+                    ent = s.env.get('__entry', ())
+                    got.add(ent[0] if len(ent) == 1 and kind == 'return' else '%s with %d entries' % (kind, len(ent)))
+                want = repr((ref[0], ref[1], ref[2] if ref[2] is not None else []))
+                if got != {want}:
+                    bad += 1
+                    if len(first) < 4:
+                        first.append('%s -> %s, expected %s' % (shown, sorted(got), want))
     chk.paths += n
     chk.rules[R]['n'] += n - 1
     if undet and not bad:
